@@ -190,12 +190,24 @@ func init() {
 			add("unknown-options", &DriverReq{Prog: p, Kind: "parse", Argv: []string{"--zzb", "--zza=1", "-zc", "pos", "--zzd"}, Dispatch: true})
 			// (c2) an unknown option one edit away from several declared names (whatever a diagnostic adds about near misses
 			// must not depend on the order in which the library happens to look at the names)
+			nearDone := false
 			for _, k := range t.Root.SortedKeys() {
-				rs := Runes(k)
-				if len(rs) >= 2 && isASCII(k) {
-					near := strings.Join(rs[:len(rs)-1], "") + "q"
-					if key, _, amb := t.Root.ResolveKey(near); key == "" && amb == nil {
+				if nearDone || !isASCII(k) || len(k) < 2 {
+					continue
+				}
+				for _, near := range []string{k[:len(k)-1] + "q", k + "q", k[:len(k)-1]} {
+					if key, _, amb := t.Root.ResolveKey(near); key != "" || amb != nil || near == "" {
+						continue
+					}
+					ties := 0
+					for _, k2 := range t.Root.SortedKeys() {
+						if editDistance(near, k2) == 1 {
+							ties++
+						}
+					}
+					if ties >= 2 {
 						add("unknown-near-miss", &DriverReq{Prog: p, Kind: "parse", Argv: []string{"--" + near}, Dispatch: true})
+						nearDone = true
 						break
 					}
 				}
@@ -365,4 +377,31 @@ func refHelpSections(p *Prog, pathToks []string, sections []int) string {
 		ss = append(ss, getoptions.HelpSection(x))
 	}
 	return b.Opt.Help(ss...)
+}
+
+// editDistance - Levenshtein distance on bytes (ASCII names only).
+func editDistance(a, b string) int {
+	prev := make([]int, len(b)+1)
+	for j := range prev {
+		prev[j] = j
+	}
+	for i := 1; i <= len(a); i++ {
+		cur := make([]int, len(b)+1)
+		cur[0] = i
+		for j := 1; j <= len(b); j++ {
+			cost := 1
+			if a[i-1] == b[j-1] {
+				cost = 0
+			}
+			cur[j] = prev[j-1] + cost
+			if prev[j]+1 < cur[j] {
+				cur[j] = prev[j] + 1
+			}
+			if cur[j-1]+1 < cur[j] {
+				cur[j] = cur[j-1] + 1
+			}
+		}
+		prev = cur
+	}
+	return prev[len(b)]
 }
